@@ -362,3 +362,367 @@ theorem runOps_eq_runSeq (bytes : Bytes) (cfg : Config) (ops : List Seq.Op) (off
     rw [runOps, runSeq, ih, h1, h2]
 
 end Pelite.Strings
+
+/-! ### the executable reference `specAll` against `Qualifies` -/
+namespace Pelite.Strings
+
+/-- `runEnd` with enough fuel stops at the end of the maximal printable run that starts at `s` -/
+theorem runEnd_spec (bytes : Bytes) : ∀ (fuel s : Nat), bytes.size - s ≤ fuel →
+    s ≤ runEnd bytes s fuel ∧ (s ≤ bytes.size → runEnd bytes s fuel ≤ bytes.size) ∧
+    AllP bytes s (runEnd bytes s fuel) ∧
+    (runEnd bytes s fuel < bytes.size → specPrintable (byteAt bytes (runEnd bytes s fuel)) = false) := by
+  intro fuel
+  induction fuel with
+  | zero =>
+    intro s h
+    unfold runEnd
+    exact ⟨Nat.le_refl _, fun h => h, AllP_empty _ _, fun h' => by omega⟩
+  | succ fuel ih =>
+    intro s h
+    unfold runEnd
+    by_cases hc : s < bytes.size ∧ specPrintable (byteAt bytes s) = true
+    · rw [if_pos hc]
+      obtain ⟨h1, h2, h3, h4⟩ := ih (s + 1) (by omega)
+      refine ⟨by omega, fun _ => h2 (by omega), ?_, h4⟩
+      intro j hj1 hj2
+      by_cases hj : j = s
+      · subst hj; exact hc.2
+      · exact h3 j (by omega) hj2
+    · rw [if_neg hc]
+      refine ⟨Nat.le_refl _, fun h => h, AllP_empty _ _, fun h' => ?_⟩
+      cases hp : specPrintable (byteAt bytes s) with
+      | false => rfl
+      | true => exact absurd ⟨h', hp⟩ hc
+
+/-- the reference decides, for a start position, exactly the qualifying run that starts there -/
+theorem specRunAt_eq_some_iff (bytes : Bytes) (cfg : Config) (s : Nat) (g : Found) :
+    specRunAt bytes cfg s = some g ↔ Qualifies bytes cfg g ∧ g.start = s := by
+  obtain ⟨e1, e2, e3, e4⟩ := runEnd_spec bytes (bytes.size - s) s (Nat.le_refl _)
+  unfold specRunAt
+  generalize runEnd bytes s (bytes.size - s) = e at *
+  by_cases hc : s < bytes.size ∧ (s = 0 ∨ specPrintable (byteAt bytes (s - 1)) = false)
+  · rw [if_pos hc]
+    have e2' := e2 (by omega)
+    have hse : s + (e - s) = e := by omega
+    -- what a qualifying run starting at `s` looks like
+    have hlen : ∀ g, Qualifies bytes cfg g → g.start = s → g.len = e - s := by
+      intro g hq hs
+      refine qual_len hq hs e1 e3 ?_
+      by_cases hlt : e < bytes.size
+      · exact .inr ⟨hlt, e4 hlt⟩
+      · exact .inl (by omega)
+    simp only
+    by_cases hl : e - s = 0
+    · rw [if_pos hl]
+      constructor
+      · intro h; cases h
+      · rintro ⟨hq, hs⟩
+        have := hlen g hq hs
+        have := hq.1
+        omega
+    rw [if_neg hl]
+    by_cases hlt : e < bytes.size
+    · rw [if_pos hlt]
+      have hnp := e4 hlt
+      by_cases hz : byteAt bytes e = 0
+      · rw [if_pos hz]
+        by_cases hmin : cfg.minLenNul ≤ e - s
+        · rw [if_pos hmin]
+          constructor
+          · intro h
+            cases h
+            refine ⟨⟨by simp only; omega, by simp only; omega, ?_, hc.2, .inl ⟨?_, ?_, rfl, hmin⟩⟩, rfl⟩
+            · intro j h1 h2; exact e3 j h1 (by simp only at h2; omega)
+            · simp only; omega
+            · simp only; rw [hse]; exact hz
+          · rintro ⟨hq, hs⟩
+            have hl' := hlen g hq hs
+            congr 1
+            apply Found.ext' hs.symm hl'.symm
+            obtain ⟨_, _, _, _, hk⟩ := hq
+            rw [hs, hl', hse] at hk
+            rcases hk with ⟨_, _, hh, _⟩ | ⟨_, hne, _⟩ | ⟨he, _⟩
+            · exact hh.symm
+            · exact absurd hz hne
+            · omega
+        · rw [if_neg hmin]
+          constructor
+          · intro h; cases h
+          · rintro ⟨hq, hs⟩
+            have hl' := hlen g hq hs
+            obtain ⟨_, _, _, _, hk⟩ := hq
+            rw [hs, hl', hse] at hk
+            rcases hk with ⟨_, _, _, hh⟩ | ⟨_, hne, _⟩ | ⟨he, _⟩
+            · exact absurd hh hmin
+            · exact absurd hz hne
+            · omega
+      · rw [if_neg hz]
+        by_cases hmin : (!cfg.strictNul) = true ∧ cfg.minLen ≤ e - s
+        · rw [if_pos hmin]
+          have hst : cfg.strictNul = false := by simpa using hmin.1
+          constructor
+          · intro h
+            cases h
+            refine ⟨⟨by simp only; omega, by simp only; omega, ?_, hc.2,
+              .inr (.inl ⟨?_, ?_, ?_, rfl, hst, hmin.2⟩)⟩, rfl⟩
+            · intro j h1 h2; exact e3 j h1 (by simp only at h2; omega)
+            · simp only; omega
+            · simp only; rw [hse]; exact hz
+            · simp only; rw [hse]; exact hnp
+          · rintro ⟨hq, hs⟩
+            have hl' := hlen g hq hs
+            congr 1
+            apply Found.ext' hs.symm hl'.symm
+            obtain ⟨_, _, _, _, hk⟩ := hq
+            rw [hs, hl', hse] at hk
+            rcases hk with ⟨_, hz', _⟩ | ⟨_, _, _, hh, _⟩ | ⟨he, _⟩
+            · exact absurd hz' hz
+            · exact hh.symm
+            · omega
+        · rw [if_neg hmin]
+          constructor
+          · intro h; cases h
+          · rintro ⟨hq, hs⟩
+            have hl' := hlen g hq hs
+            obtain ⟨_, _, _, _, hk⟩ := hq
+            rw [hs, hl', hse] at hk
+            rcases hk with ⟨_, hz', _⟩ | ⟨_, _, _, _, hst, hml⟩ | ⟨he, _⟩
+            · exact absurd hz' hz
+            · exact absurd ⟨by simpa using hst, hml⟩ hmin
+            · omega
+    · rw [if_neg hlt]
+      have hee : e = bytes.size := by omega
+      by_cases hmin : (!cfg.strictNul) = true ∧ cfg.minLen ≤ e - s
+      · rw [if_pos hmin]
+        have hst : cfg.strictNul = false := by simpa using hmin.1
+        constructor
+        · intro h
+          cases h
+          refine ⟨⟨by simp only; omega, by simp only; omega, ?_, hc.2,
+            .inr (.inr ⟨by simp only; omega, rfl, hst, hmin.2⟩)⟩, rfl⟩
+          intro j h1 h2; exact e3 j h1 (by simp only at h2; omega)
+        · rintro ⟨hq, hs⟩
+          have hl' := hlen g hq hs
+          congr 1
+          apply Found.ext' hs.symm hl'.symm
+          obtain ⟨_, _, _, _, hk⟩ := hq
+          rw [hs, hl', hse] at hk
+          rcases hk with ⟨hlt', _⟩ | ⟨hlt', _⟩ | ⟨_, hh, _⟩
+          · omega
+          · omega
+          · exact hh.symm
+      · rw [if_neg hmin]
+        constructor
+        · intro h; cases h
+        · rintro ⟨hq, hs⟩
+          have hl' := hlen g hq hs
+          obtain ⟨_, _, _, _, hk⟩ := hq
+          rw [hs, hl', hse] at hk
+          rcases hk with ⟨hlt', _⟩ | ⟨hlt', _⟩ | ⟨_, _, hst, hml⟩
+          · omega
+          · omega
+          · exact absurd ⟨by simpa using hst, hml⟩ hmin
+  · rw [if_neg hc]
+    constructor
+    · intro h; cases h
+    · rintro ⟨hq, hs⟩
+      exfalso
+      apply hc
+      obtain ⟨h1, h2, _, hb, _⟩ := hq
+      rw [hs] at h2 hb
+      exact ⟨by omega, hb⟩
+
+theorem mem_specAll (bytes : Bytes) (cfg : Config) (g : Found) :
+    g ∈ specAll bytes cfg ↔ Qualifies bytes cfg g := by
+  unfold specAll
+  rw [List.mem_filterMap]
+  constructor
+  · rintro ⟨s, _, hs⟩
+    exact ((specRunAt_eq_some_iff bytes cfg s g).1 hs).1
+  · intro hq
+    refine ⟨g.start, List.mem_range.2 ?_, (specRunAt_eq_some_iff bytes cfg g.start g).2 ⟨hq, rfl⟩⟩
+    have := hq.1; have := hq.2.1; omega
+
+/-- the reference lists the runs in ascending order of their start -/
+theorem specAll_sorted (bytes : Bytes) (cfg : Config) :
+    (specAll bytes cfg).Pairwise (fun a b => a.start < b.start) := by
+  unfold specAll
+  refine List.Pairwise.filterMap _ ?_ List.pairwise_lt_range
+  intro s s' hlt g hg g' hg'
+  rw [((specRunAt_eq_some_iff bytes cfg s g).1 hg).2, ((specRunAt_eq_some_iff bytes cfg s' g').1 hg').2]
+  exact hlt
+
+/-- two lists that are strictly ascending under a key and have the same members are equal -/
+theorem sorted_ext {α : Type} (k : α → Nat) : ∀ (l1 l2 : List α),
+    l1.Pairwise (fun a b => k a < k b) → l2.Pairwise (fun a b => k a < k b) →
+    (∀ g, g ∈ l1 ↔ g ∈ l2) → l1 = l2 := by
+  intro l1
+  induction l1 with
+  | nil =>
+    intro l2 _ _ hm
+    cases l2 with
+    | nil => rfl
+    | cons b u => exact absurd ((hm b).2 List.mem_cons_self) (by simp)
+  | cons a t ih =>
+    intro l2 h1 h2 hm
+    cases l2 with
+    | nil => exact absurd ((hm a).1 List.mem_cons_self) (by simp)
+    | cons b u =>
+      obtain ⟨ha, ht⟩ := List.pairwise_cons.1 h1
+      obtain ⟨hb, hu⟩ := List.pairwise_cons.1 h2
+      have hab : a = b := by
+        rcases List.mem_cons.1 ((hm a).1 List.mem_cons_self) with h | h
+        · exact h
+        · rcases List.mem_cons.1 ((hm b).2 List.mem_cons_self) with h' | h'
+          · exact h'.symm
+          · have := ha b h'; have := hb a h; omega
+      subst hab
+      congr 1
+      apply ih u ht hu
+      intro g
+      constructor
+      · intro hg
+        rcases List.mem_cons.1 ((hm g).1 (List.mem_cons_of_mem _ hg)) with h | h
+        · subst h; have := ha g hg; omega
+        · exact h
+      · intro hg
+        rcases List.mem_cons.1 ((hm g).2 (List.mem_cons_of_mem _ hg)) with h | h
+        · subst h; have := hb g hg; omega
+        · exact h
+
+end Pelite.Strings
+
+/-! ### the `u32` offset field: the transition with the casts against the one without -/
+namespace Pelite.Strings
+open Pelite.Seq
+
+/-- wherever `next` answers `Some`, the new offset is inside the buffer -/
+theorem next_off_le {bytes : Bytes} {cfg : Config} {off : Nat} {f : Found} {off' : Nat}
+    (h : next bytes cfg off = some (f, off')) : off' ≤ bytes.size := by
+  by_cases hoff : bytes.size ≤ off
+  · rw [next_beyond hoff] at h; cases h
+  · exact (next_progress (by omega) h).2
+
+/-- below 4 GiB the casts `as u32` on `self.offset` change nothing -/
+theorem nextT_eq_next (bytes : Bytes) (cfg : Config) (h : bytes.size < 4294967296) :
+    nextT bytes cfg = next bytes cfg := by
+  funext off
+  unfold nextT
+  cases hn : next bytes cfg off with
+  | none => rfl
+  | some p =>
+    obtain ⟨f, off'⟩ := p
+    have := next_off_le hn
+    simp only [trunc32]
+    rw [Nat.mod_eq_of_lt (by omega)]
+
+theorem addressT_eq (base : Nat) (f : Found) : addressT base f = address base f := by
+  unfold addressT address trunc32 wadd32
+  omega
+
+theorem enumAll_eq_itemsW (bytes : Bytes) (cfg : Config) : ∀ (fuel off : Nat),
+    enumAll bytes cfg fuel off = itemsW (next bytes cfg) fuel off := by
+  intro fuel
+  induction fuel with
+  | zero => intro off; rfl
+  | succ fuel ih =>
+    intro off
+    unfold enumAll itemsW
+    cases next bytes cfg off with
+    | none => rfl
+    | some p => obtain ⟨f, off'⟩ := p; simp only [ih]
+
+theorem stepW_next (bytes : Bytes) (cfg : Config) (off : Nat) : stepW (next bytes cfg) off = step bytes cfg off := by
+  unfold stepW step
+  cases next bytes cfg off with
+  | none => rfl
+  | some p => rfl
+
+theorem nthW_next (bytes : Bytes) (cfg : Config) : ∀ (k off : Nat),
+    nthW (next bytes cfg) off k = nthFound bytes cfg off k := by
+  intro k
+  induction k with
+  | zero => intro off; unfold nthW nthFound; exact stepW_next bytes cfg off
+  | succ k ih =>
+    intro off
+    unfold nthW nthFound
+    cases next bytes cfg off with
+    | none => rfl
+    | some p => obtain ⟨f, off'⟩ := p; exact ih off'
+
+theorem itemsW_next (bytes : Bytes) (cfg : Config) (fuel off : Nat) (hoff : off ≤ bytes.size)
+    (hfuel : bytes.size + 2 ≤ fuel + off) : itemsW (next bytes cfg) fuel off = .ok (itemsFrom bytes cfg off) := by
+  rw [← enumAll_eq_itemsW]
+  exact enumAll_eq_itemsFrom bytes cfg fuel off hoff hfuel
+
+theorem countW_next (bytes : Bytes) (cfg : Config) : ∀ (fuel off n : Nat), off ≤ bytes.size →
+    bytes.size + 2 ≤ fuel + off → countW (next bytes cfg) fuel off n = .ok (countFound bytes cfg off n) := by
+  intro fuel
+  induction fuel with
+  | zero => intro off n h1 h2; omega
+  | succ fuel ih =>
+    intro off n hoff hfuel
+    unfold countW
+    cases h : next bytes cfg off with
+    | none => simp only [countFound_eq, itemsFrom_of_none h, List.length_nil, Nat.add_zero]
+    | some p =>
+      obtain ⟨f, off'⟩ := p
+      obtain ⟨h1, h2⟩ := next_progress hoff h
+      simp only
+      rw [ih off' (n + 1) h2 (by omega), countFound_eq, countFound_eq, itemsFrom_of_some h, List.length_cons]
+      congr 1
+      omega
+
+theorem step_off_le {bytes : Bytes} {cfg : Config} {off : Nat} (hoff : off ≤ bytes.size) :
+    (step bytes cfg off).2 ≤ bytes.size := by
+  unfold step
+  cases h : next bytes cfg off with
+  | none => exact hoff
+  | some p => obtain ⟨f, off'⟩ := p; exact next_off_le h
+
+theorem nthFound_off_le {bytes : Bytes} {cfg : Config} : ∀ (k off : Nat), off ≤ bytes.size →
+    (nthFound bytes cfg off k).2 ≤ bytes.size := by
+  intro k
+  induction k with
+  | zero => intro off hoff; unfold nthFound; exact step_off_le hoff
+  | succ k ih =>
+    intro off hoff
+    unfold nthFound
+    cases h : next bytes cfg off with
+    | none => exact hoff
+    | some p => obtain ⟨f, off'⟩ := p; exact ih off' (next_off_le h)
+
+theorem stepOp_off_le {bytes : Bytes} {cfg : Config} {off : Nat} (hoff : off ≤ bytes.size) (o : Op) :
+    (stepOp bytes cfg off o).2 ≤ bytes.size := by
+  cases o with
+  | next => exact step_off_le hoff
+  | nth n => exact nthFound_off_le n off hoff
+  | sizeHint => exact hoff
+  | count => exact hoff
+  | clone => exact hoff
+
+theorem stepOpW_next (bytes : Bytes) (cfg : Config) (fuel off : Nat) (hoff : off ≤ bytes.size)
+    (hfuel : bytes.size + 2 ≤ fuel) (o : Op) :
+    stepOpW (next bytes cfg) fuel off o = .ok (stepOp bytes cfg off o) := by
+  cases o with
+  | next => simp only [stepOpW, stepOp, stepW_next]
+  | nth n => simp only [stepOpW, stepOp, nthW_next]
+  | sizeHint => rfl
+  | count => simp only [stepOpW, stepOp, countW_next bytes cfg fuel off 0 hoff (by omega), Out.bind_ok]
+  | clone => simp only [stepOpW, stepOp, itemsW_next bytes cfg fuel off hoff (by omega), Out.bind_ok]
+
+theorem runOpsW_next (bytes : Bytes) (cfg : Config) (fuel : Nat) (hfuel : bytes.size + 2 ≤ fuel) :
+    ∀ (ops : List Op) (off : Nat), off ≤ bytes.size →
+      runOpsW (next bytes cfg) fuel off ops = .ok (runOps bytes cfg off ops) := by
+  intro ops
+  induction ops with
+  | nil => intro off _; rfl
+  | cons o os ih =>
+    intro off hoff
+    unfold runOpsW runOps
+    rw [stepOpW_next bytes cfg fuel off hoff hfuel o]
+    simp only [Out.bind_ok]
+    rw [ih _ (stepOp_off_le hoff o)]
+    rfl
+
+end Pelite.Strings
